@@ -22,8 +22,8 @@ pub fn prop() -> Prop {
             "patterns use each colour type's canonical characters",
         ],
         subs: vec![
-            Sub::tape("histories", 120, 40_000, 600_000, histories),
-            Sub::tape("patterns", 140, 20_000, 300_000, patterns),
+            Sub::tape("histories", 120, 40_000, 2_000_000, histories),
+            Sub::tape("patterns", 140, 20_000, 1_000_000, patterns),
         ],
     }
 }
